@@ -148,6 +148,8 @@ func expectedCells(sp spec) int {
 		return n
 	case "reflag":
 		return len(reflagCells(sp))
+	case "failmod":
+		return failmodCells(sp)
 	}
 	return 0
 }
@@ -646,14 +648,13 @@ func (x *exec) runIface(o *database.Interface) {
 			aerr = w.W.Delete(x.key)
 		case "sub-push":
 			want = w.newTok(x.key, c.F, "priv")
-			_, dbKey := record.ParseKey(x.key)
-			r := w.prv.live(dbKey)
+			r, push := w.liveRec(x.key)
 			if r == nil {
 				aerr = errors.New("record not in provider")
 			} else {
 				r.Lock()
 				setPayload(r, want)
-				w.psh(r)
+				push(r)
 				r.Unlock()
 			}
 		}
